@@ -93,6 +93,17 @@ func genDoc(r *Rng, maxLen int) []byte {
 	return doc
 }
 
+// genDocMany: with probability p a document of hundreds of root blocks (a
+// threshold on the NUMBER of blocks - a parser that completes large documents
+// in batches or in parallel - is out of reach of documents of a few blocks;
+// not cut at maxLen), otherwise genDoc.
+func genDocMany(r *Rng, maxLen int, p float64) []byte {
+	if r.Chance(p) {
+		return derive(r, manyBlocks(r))
+	}
+	return genDoc(r, maxLen)
+}
+
 // derive applies seeded byte-level derivations.
 func derive(r *Rng, doc []byte) []byte {
 	if r.Chance(0.40) {
@@ -820,6 +831,23 @@ func refdefTabs(r *Rng) []byte {
 	}
 	if r.Chance(0.5) {
 		sb.WriteString("\n" + c.first + "[a] after\n")
+	}
+	return []byte(sb.String())
+}
+
+// manyBlocks: 100-700 (one time in ten 1100-2100) short root blocks of mixed
+// kinds, every one with inline content to complete, a few link reference
+// definitions among them.
+func manyBlocks(r *Rng) []byte {
+	n := r.Range(100, 700)
+	if r.Chance(0.1) {
+		n = r.Range(1100, 2100)
+	}
+	kinds := []string{"a%d\n\n", "*b%d*\n\n", "# h%d\n\n", "`c%d`\n\n", "[r%d]\n\n", "> q%d\n\n", "[r%d]: /u\n\n", "x%d\\\ny\n\n", "<b>%d</b>\n\n", "&amp;%d\n\n"}
+	var sb strings.Builder
+	for i := 0; i < n; i++ {
+		k := kinds[r.Intn(len(kinds))]
+		sb.WriteString(strings.Replace(k, "%d", itoa(i%7), 1))
 	}
 	return []byte(sb.String())
 }
